@@ -326,6 +326,16 @@ def run(ck: Check):
                 if r.random() < 0.2:
                     m = mutate(r, m)
                 add({"op": kind + "_from_string", "s": m}, kind=kind, sp=None)
+    # replace(): any subset of the keywords (0 included: a falsy new value must still replace), the offset keyword
+    # absent (sentinel True = keep), None (remove the zone) or a number (incl. 0 and 1, which must not be taken for True)
+    for _ in range(120 * N):
+        for kind2, gv, nf in (("date", g_value_date, 3), ("time", g_value_time, 4), ("datetime", g_value_datetime, 7)):
+            v = gv(r)
+            other = gv(r)
+            args = [None if r.random() < 0.55 else (r.choice([0, 0, 1, other[i]]) if r.random() < 0.5 else other[i]) for i in range(nf)]
+            k = r.random()
+            off = ["keep"] if k < 0.4 else [None] if k < 0.6 else [r.choice([0, 1, -1, other[nf] or 0, r.randint(-840, 840)])]
+            add({"op": kind2 + "_replace", "v": v, "args": args, "off": off}, kind=kind2 + "_replace")
     for _ in range(200 * N):
         add({"op": "date_str", "v": g_value_date(r)}, kind="date_str")
         add({"op": "time_str", "v": g_value_time(r)}, kind="time_str")
@@ -464,6 +474,19 @@ def run(ck: Check):
             ck.failure(f"corr-{kind}", f"model and implementation disagree on str({k}{it[1]['v']}) = {it[2]['ok']!r}", {"op": it[1], "impl": it[2]})
         for it in run_pred(f"oracle_{kind}", "list (option Z) * str", f"oracle_{k}_str", ok_items, terms):
             ck.failure(f"{k}-str-not-xsd-valid", f"str({k}{it[1]['v']}) = {it[2]['ok']!r} is not the XSD form of the value", {"op": it[1], "impl": it[2]})
+    for kind2 in ("date", "time", "datetime"):
+        items = [it for it in cases_of(kind2 + "_replace") if "ok" in it[2]]
+        missing = [it for it in cases_of(kind2 + "_replace") if "ok" not in it[2]]
+        for it in missing[:3]:
+            ck.failure(f"corr-{kind2}-replace", f"{kind2}.replace raised: {it[2]}", {"op": it[1], "impl": it[2]})
+        terms = [f"({tup(it[1]['v'])}, {tup(it[1]['args'])}, {'None' if it[1]['off'] == ['keep'] else '(Some ' + copt(it[1]['off'][0], cZ) + ')'}, {tup(it[2]['ok'])})"
+                 for it in items]
+        for it in items:
+            distinct.add((kind2 + "_replace", tuple(it[1]["v"]), tuple(it[1]["args"]), str(it[1]["off"])))
+        for it in run_pred(f"agree_{kind2}_replace", "list (option Z) * list (option Z) * option (option Z) * list (option Z)",
+                           f"agree_{kind2}_replace", items, terms):
+            ck.failure(f"corr-{kind2}-replace", f"model and implementation disagree on {kind2}{it[1]['v']}.replace({it[1]['args']}, offset={it[1]['off']}) = {it[2]['ok']}",
+                       {"op": it[1], "impl": it[2]})
     # round trip on the implementation itself (composition the unit tests never do)
     rt_ops = []
     for kind in ("date_str", "time_str", "datetime_str"):
